@@ -39,6 +39,8 @@ def cases(tier, seed):
             g.update(bf=1, base=[5, 6, 7] if i % 14 == 3 else [7, 3, 9], maxsz=3, nlevels=1 + (i // 7) % 2)
             g.pop("base_blocks", None)
             g.pop("full_refine", None)
+        if i % 5 == 2:      # the same geometry in micrometres / nanometres
+            g["length_scale"] = [1e-6, 1e-9][(i // 5) % 2]
         if i % 3 == 1:      # far from the origin: coordinate / cell size of 1e5 .. 1e7
             g["origin"] = [rng.choice([1.0e5, -3.0e5, 2.5e6]) for _ in range(3)]
         cs.append({"kind": "geom", "gen": g, "sel_seed": seed * 53 + i, "npos": 8 if tier == "quick" else 12, "fmt": dict(ref_ratio_extra=rng.choice([0, 0, 1, 3]), trailing_blank=rng.random() < 0.7, close_blank=rng.random() < 0.3, floatfmt=rng.choice(["repr", "17g"]))})
@@ -93,7 +95,8 @@ def judge(out, m, vol, n, pos, L, fl):
     nb = nd = nu = 0
     lo0 = m.geo_low[n] + m.dx[0][n] / 2
     hi0 = m.geo_high[n] - m.dx[0][n] / 2
-    inside0 = lo0 - 1e-12 <= pos <= hi0 + 1e-12
+    eps_n = 1e-9 * m.dx[L][n] + 8 * 2.220446049250313e-16 * max(abs(m.geo_low[n]), abs(m.geo_high[n]))     # scale aware
+    inside0 = lo0 - eps_n <= pos <= hi0 + eps_n
     for lv in range(L + 1):
         lev = r["levels"][lv]
         dxn = m.dx[lv][n]
@@ -101,7 +104,7 @@ def judge(out, m, vol, n, pos, L, fl):
         for bi, b in enumerate(m.boxes[lv]):
             blo = m.geo_low[n] + b.lo[n] * dxn
             bhi = m.geo_low[n] + (b.hi[n] + 1) * dxn
-            if blo - 1e-12 <= pos <= bhi + 1e-12:
+            if blo - eps_n <= pos <= bhi + eps_n:
                 met.append(((b.lo[cx], b.lo[cy]), (b.hi[cx], b.hi[cy])))
         got = [(tuple(lo), tuple(hi)) for lo, hi in lev["idx"]]
         if sorted(got) != sorted(met):
@@ -167,7 +170,7 @@ def on_box_face(m, L, n, pos):
         dx = m.dx[lv][n]
         for b in m.boxes[lv]:
             for fk in (b.lo[n], b.hi[n] + 1):
-                if abs(m.geo_low[n] + fk * dx - pos) < 1e-9 * max(1.0, abs(pos)):
+                if abs(m.geo_low[n] + fk * dx - pos) < 1e-9 * dx + 8 * 2.220446049250313e-16 * abs(pos):
                     return True
     return False
 
@@ -203,7 +206,7 @@ def cli_vs_api(case, work, rec, m, path, digest, rng):
         for o in (o_api, o_cli):
             if os.path.exists(o):
                 shutil.rmtree(o)
-        args = ["mandoline", "-n", str(n), "-p", repr(pos), "-v"] + fl + ["-f", "plotfile", "-o", o_cli, "-V", "0", "-s"]
+        args = ["mandoline", "-n", str(n), "--position=" + repr(pos), "-v"] + fl + ["-f", "plotfile", "-o", o_cli, "-V", "0", "-s"]
         if limit is not None:
             args += ["-L", str(limit)]
         args.append(path)
